@@ -3,6 +3,7 @@ package main
 import (
 	"bytes"
 	"fmt"
+	"math"
 	"strconv"
 	"strings"
 	"time"
@@ -390,6 +391,13 @@ func init() {
 					xs[j].end = xs[j].start + int64(r.intn(3))
 				}
 			}
+			if r.chance(1, 50) { // instants at the ends of the range of time.Duration: comparing is not subtracting
+				ext := []int64{math.MinInt64, math.MinInt64 + 1, -10 * int64(time.Second), -1, 0, 1, math.MaxInt64 - 5, math.MaxInt64}
+				for j := range xs {
+					xs[j].start = ext[r.intn(len(ext))]
+					xs[j].end = xs[j].start
+				}
+			}
 			c.do(fmt.Sprintf("ops.order %d %s", r.intn(3), encMItems(xs)))
 			c.count("random")
 		}
@@ -508,14 +516,26 @@ func init() {
 					pool = []int{3, 14, 0, 12, 15, 16}
 				}
 			}
+			// roll-up captions: cues without payload whose lines are prefixes of one block share its backing array
+			rollUp := r.chance(1, 8)
+			if rollUp {
+				pool = []int{0, 2, 9, 11, 2, 0}
+			}
 			for j := range xs {
 				xs[j].lines = linePool[pool[r.intn(nt*2)%len(pool)]]
+				if rollUp {
+					xs[j].pay = 0
+				}
 				if r.chance(2, 3) {
 					xs[j].start = r.rangeI(0, 30) * int64(time.Second)
 					xs[j].end = xs[j].start + r.rangeI(0, 6)*int64(time.Second)
 				}
 			}
-			run(xs, r.intn(3))
+			if rollUp {
+				run(xs, 1)
+			} else {
+				run(xs, r.intn(3))
+			}
 			c.count("random")
 		}
 	}}
